@@ -74,3 +74,10 @@ check("C13", "exploration", "runtime self-differential monitor over cache config
       "the per-record result cache disabled are byte-identical to all-caches-on.",
       "Switches are process-global and restored after each case. VerifReparse uses the real ParseNode.",
       "DESIGN.md section 3 C13")
+
+check("C01", "exploration", "runtime trace-specification monitor + executable model of the Transform wrapper in lock-step over a scripted caller-supplied handler",
+      "Held on every call of every generated history (quick 1.6e5, thorough 6e6 calls): result classes, nil-bytes-with-error, valid UTF-8 JSON, "
+      "stickiness of terminal results (up to 20 calls past them), RawRecord gating/identity/idempotence/checksum, for the seven built-in readers, the "
+      "jsonlog sample format and a scripted handler producing every legal-but-nasty step.",
+      "Classes derive from public predicates only. A handler never returns nil RawRecord with nil error.",
+      "DESIGN.md section 3 C01")
